@@ -21,18 +21,21 @@ V=[
  ("C11","percent-not-doubled","fc/wrapper.go","			res.WriteString(\"%%\")","			res.WriteByte(c)"),
  ("C11","raw-quote-unescaped","fc/wrapper.go","		} else if c == '\"' {\n			bb.WriteString(\"\\\\\\\"\")\n		} else if c == '\\n' {","		} else if c == '\\n' {"),
  ("C05","time-in-wrapper","fc/wrapper.go",["func uniqueTmpVarName() string {\n	uniqueId++","import (\n	\"bytes\"\n	\"fmt\"\n	\"os\"\n"],["func uniqueTmpVarName() string {\n	uniqueId += int(time.Now().UnixNano() % 2)","import (\n	\"bytes\"\n	\"fmt\"\n	\"os\"\n	\"time\"\n"]),
- ("C06","block-end-uses-le","fc/gen_parse_state.go" if False else "fc/gen_parser.go","((psCurCol(ps) < psCurOffside(ps)) || psCurIs(New_TokenType_EOF, ps))","((psCurCol(ps) <= psCurOffside(ps)) || psCurIs(New_TokenType_EOF, ps))"),
- ("C06","column-compared-with-literal","fc/gen_parser.go","func insideOffside(ps ParseState) bool {\n	return (psCurCol(ps) >= psCurOffside(ps))","func insideOffside(ps ParseState) bool {\n	return ((psCurCol(ps) >= psCurOffside(ps)) || (psCurCol(ps) > 40))"),
  ("C15","float-prints-float32","fc/gen_ftype.go","		return \"float64\"","		return \"float32\""),
- ("C15","slice-binds-looser","fc/gen_parser.go","	return ParseSepList((func(_r0 ParseState) frt.Tuple2[ParseState, FType] { return parseTermType(pType, _r0) }), New_TokenType_ASTER, ps)","	return ParseSepList((func(_r0 ParseState) frt.Tuple2[ParseState, FType] { return parseAtomType(pType, _r0) }), New_TokenType_ASTER, ps)"),
  ("C17","tinyfo-plus-rank","tinyfo/parser.go","	PLUS:    {4, \"+\"},","	PLUS:    {2, \"+\"},"),
  ("C17","tinyfo-right-operand-same-rank","tinyfo/parser.go","rhs := p.parseExprWithPrecedence(binInfo.precedence + 1)","rhs := p.parseExprWithPrecedence(binInfo.precedence)"),
  ("C18","title-uses-head","cmd/build_sample_md/gen_build_sample_md.go","slice.Head(cols), slice.Last(cols)","slice.Head(cols), slice.Head(cols)"),
  ("C18","read-failure-continues","cmd/build_sample_md/gen_build_sample_md.go","		frt.Panicf1(\"Can't open file %s\", foFname)","		frt.Printf1(\"Can't open file %s\", foFname)"),
  ("C01","lazy-block-invoked","fc/gen_expr_to_go.go","	return wrapFunc(FTypeToGo, rtype, returnBody)\n}","	return wrapFunCall(FTypeToGo, rtype, returnBody)\n}"),
  ("C01","ampamp-not-shortcircuit","fc/wrapper.go","	New_TokenType_AMPAMP:  {2, \"&&\", true},","	New_TokenType_AMPAMP:  {2, \"&\", true},"),
- ("C02","substitution-skips-slices","fc/gen_ast_util.go","	case FType_FSlice:\n		ts := _v23.Value\n		et := recurse(ts.ElemType)\n		return New_FType_FSlice(SliceType{ElemType: et})\n",""),
  ("C05","head-of-dict-values","fc/gen_parse_state.go","	return frt.Pipe(frt.Pipe(frt.Pipe(dict.Keys(sdic.RecFacMap), slice.Sort), (func(_r0 []string) []RecordFactory {\n		return slice.Map((func(_r0 string) RecordFactory { return dict.Item(sdic.RecFacMap, _r0) }), _r0)\n	})), (func(_r0 []RecordFactory)","	return frt.Pipe(dict.Values(sdic.RecFacMap), (func(_r0 []RecordFactory)"),
+]
+V+=[
+ ("C06","block-end-uses-le","fc/gen_parser.go","\tisOffside := (psCurCol(ps) < psCurOffside(ps))","\tisOffside := (psCurCol(ps) <= psCurOffside(ps))"),
+ ("C06","column-compared-with-literal","fc/gen_parser.go","\tcurCol := psCurCol(ps)\n\tcurOff := psCurOffside(ps)\n\treturn (curCol >= curOff)","\tcurCol := psCurCol(ps)\n\tcurOff := psCurOffside(ps)\n\treturn ((curCol >= curOff) || (curCol > 40))"),
+ ("C15","slice-binds-looser2","fc/gen_parser.go","\tpTerm := (func(_r0 ParseState) frt.Tuple2[ParseState, FType] { return parseTermType(pType, _r0) })\n\tps2, fts := frt.Destr2(ParseSepList(pTerm, New_TokenType_ASTER, ps))","\tpTerm := (func(_r0 ParseState) frt.Tuple2[ParseState, FType] { return parseAtomType(pType, _r0) })\n\tps2, fts := frt.Destr2(ParseSepList(pTerm, New_TokenType_ASTER, ps))"),
+ ("C02","substitution-skips-slices2","fc/gen_ast_util.go","\tcase FType_FSlice:\n\t\tts := _v17.Value\n\t\tet := recurse(ts.ElemType)\n\t\treturn New_FType_FSlice(SliceType{ElemType: et})\n",""),
+ ("C02","tvar-names-from-one","fc/gen_infer.go","\treturn frt.Sprintf1(\"T%d\", i)","\treturn frt.Sprintf1(\"T%d\", (i + 1))"),
 ]
 made=0
 for prop,name,f,old,new in V:
